@@ -463,6 +463,90 @@ def alternating_case(ctx, idx):
         p.close()
 
 
+def recv_threshold_case(ctx, idx):
+    """Re-exchange started by the initiator's own RECEIVE counters (limit and overflow allowance in the
+    shipped 1:1 ratio, scaled down), while the peer's stream is still arriving: the packets that legally
+    cross the initiator's KEXINIT are in-flight traffic, the exchange must complete and every byte arrive."""
+    rng = ctx.rng
+    init = "c" if idx % 2 else "s"
+    peer = "s" if init == "c" else "c"
+    unit = ["bytes", "packets"][(idx // 2) % 2]
+    lat = [0.0, 0.02, 0.1, 0.3][(idx // 4) % 4]
+    desc = dict(kind="recv-threshold", initiator=init, unit=unit, latency=lat)
+    p = pair.Pair(rng, client_cls=pair.WatchedTransport, server_cls=pair.WatchedTransport)
+    try:
+        if not p.start() or not p.auth():
+            ctx.inconclusive("C11 pair failed to start %r %r" % (p.client_exc, p.server_exc))
+            return
+        T = dict(c=p.tc, s=p.ts)
+        ch = p.session()
+        if ch[0] is None or ch[1] is None:
+            ctx.inconclusive("C11 channel setup failed")
+            return
+        ii, pi = (0, 1) if init == "c" else (1, 0)
+        p.wait_quiet(0.1, 5)
+        mark = p.rec.snapshot()[-1]["n"] + 1
+        pz = T[init].packetizer
+        if unit == "bytes":
+            pz.REKEY_BYTES = pz.REKEY_BYTES_OVERFLOW_MAX = 32768
+            chunk, total = 4096, 45056
+        else:
+            pz.REKEY_PACKETS = pz.REKEY_PACKETS_OVERFLOW_MAX = 40
+            chunk, total = 512, 512 * 64
+        if lat:
+            p.link.set_latency(lat, lat, jitter=lat / 4)
+        data = bytes((i * 11 + idx) & 0xFF for i in range(total))
+        err = {}
+
+        def writer():
+            try:
+                for i in range(0, total, chunk):
+                    ch[pi].sendall(data[i:i + chunk])
+            except Exception as e:
+                err["w"] = e
+
+        th = threading.Thread(target=writer, daemon=True, name="vf-peer-stream")
+        th.start()
+        got = _drain(ch[ii], total)
+        th.join(20)
+
+        def kex_done():
+            ev = [e for e in p.rec.snapshot() if e["n"] >= mark and e.get("kind") == "msg"]
+            for side in "cs":
+                ko = sum(1 for e in ev if e["side"] == side and e["dir"] == "out" and e["type"] == MSG_KEXINIT)
+                ni = sum(1 for e in ev if e["side"] == side and e["dir"] == "in" and e["type"] == MSG_NEWKEYS)
+                if ko == 0 or ni < ko:
+                    return False
+            return True
+
+        pair.wait_for(lambda: kex_done() or not p.tc.is_active() or not p.ts.is_active(), 30, 0.02)
+        alive = p.tc.is_active() and p.ts.is_active()
+        ev = [e for e in p.rec.snapshot() if e["n"] >= mark and e.get("kind") == "msg"]
+        first_kex = next((e["n"] for e in ev if e["side"] == init and e["dir"] == "out" and e["type"] == MSG_KEXINIT), None)
+        crossing = sum(1 for e in ev if first_kex is not None and e["n"] > first_kex and e["side"] == init
+                       and e["dir"] == "in" and e["type"] in (94, 95)) if first_kex is not None else 0
+        ctx.count("data_packets_crossing_a_receive_triggered_kexinit", crossing)
+        if first_kex is None:
+            ctx.inconclusive("receive counters never triggered a re-exchange %r" % (desc,))
+        elif not alive:
+            hist = [x for t in T.values() for x in getattr(t, "exc_history", []) if not isinstance(x, (EOFError, OSError))]
+            exc = hist[0] if hist else None
+            ctx.violation("session died during a receive-triggered re-exchange: %s" % (type(exc).__name__ if exc else "no exception saved"),
+                          "%r while the peer's stream crossed the initiator's KEXINIT (%d data packets after it); got %d of %d bytes"
+                          % (exc, crossing, len(got), total), dict(case=desc))
+        elif not kex_done():
+            ctx.violation("re-exchange did not complete within 30 s of quiescent link",
+                          "receive-triggered KEXINIT sent but NEWKEYS not exchanged both ways", dict(case=desc))
+        elif got != data or "w" in err:
+            ctx.violation("channel bytes lost or reordered across the re-exchange",
+                          "receive-triggered: got %d of %d bytes, writer error %r" % (len(got), total, err.get("w")), dict(case=desc))
+        else:
+            ctx.count("receive_triggered_reexchanges_completed")
+        ctx.case(tuple(sorted(desc.items())), sample=desc if idx < 1 else None, nontrivial=crossing > 0)
+    finally:
+        p.close()
+
+
 def _expect_reject(fn):
     try:
         fn()
@@ -511,6 +595,11 @@ def run(ctx):
         if time.time() > dl + 60:
             break
         ctx.guard(alternating_case, ctx, i)
+    for i in range(ctx.pick(4, 16)):
+        if time.time() > dl + 90:
+            break
+        ctx.guard(recv_threshold_case, ctx, i + ctx.shard)
+    ctx.require("receive_triggered_reexchanges_completed", 16)
     ctx.require("back_to_back_reexchanges_completed", 100)
     ctx.require("connection_msgs_delivered_inside_kex_window", 20)
     ctx.require("idle_reexchanges_after_busy_one", 10)
